@@ -364,3 +364,7 @@ Example C12_ex_fake_psk_view_smaller :
   | _ => False
   end.
 Proof. exact ComposeW.psk_disagree_fake. Qed.
+
+(* Imported LAST and only so that the driver's closure scan (lib/vcheck.py follows "Require Import" lines) covers the
+   composition files; nothing follows, so no name of this file is shadowed. *)
+From UV Require Import Model.WriteToUConn Proofs.ComposeP Proofs.ComposeW.
